@@ -18,7 +18,12 @@ from vlib import *
 
 PID = 'C03'
 THEOREMS = ['C03_switch_dispatch', 'C03_case_value_stored', 'C03_innermost_binding', 'C03_latest_declaration', 'C03_block_scope_restores', 'C03_name_spaces_separate', 'C03_nonvacuous',
-            'C03_lowering_simulation', 'C03_lowered_program', 'C03_target_deterministic', 'C03_lowering_nonvacuous', 'C03_shortcircuit_lowering']
+            'C03_lowering_simulation', 'C03_lowered_program', 'C03_target_deterministic', 'C03_lowering_nonvacuous', 'C03_shortcircuit_lowering',
+            # package sw (Properties_C03_sw.v): switch with fall-through / default anywhere / Duff's device, goto and labels, computed goto; parse.c's label bookkeeping; two semantics proved equivalent
+            'C03_sw_lowering_simulates', 'C03_sw_program_simulates', 'C03_sw_function_simulates', 'C03_sw_program_run_unique', 'C03_sw_smrun_sound', 'C03_sw_loop_binds_break_continue', 'C03_sw_switch_binds_break',
+            'C03_sw_duplicates_refuted', 'C03_sw_parse_labels_unique', 'C03_sw_parse_gen_is_sprogram', 'C03_sw_parsed_program_simulates', 'C03_sw_parse_accepts_iff', 'C03_sw_parse_rejects_stray',
+            'C03_sw_seek_agrees_with_continuations', 'C03_sw_program_agrees_with_continuations', 'C03_sw_continuation_run_unique', 'C03_sw_crun_sound', 'C03_sw_semantics_equivalent',
+            'C03_sw_code_simulates_continuation_semantics', 'C03_sw_parsed_code_simulates_continuation_semantics', 'C03_sw_duff_nonvacuous', 'C03_sw_mix_nonvacuous', 'C03_sw_seek_nonvacuous', 'C03_sw_parse_nonvacuous', 'C03_sw_cont_nonvacuous']
 MODELRUN = os.path.join(VERIF, 'ocaml/modelrun')
 
 CTYPES = [('signed char', 8, True), ('unsigned char', 8, False), ('short', 16, True), ('unsigned short', 16, False), ('int', 32, True), ('unsigned int', 32, False),
@@ -319,7 +324,7 @@ def main():
         run.proof_broken.append('scratch build of /repo failed: ' + str(e)[-800:])
         return run.finish(dict(evaluations=0), [], [])
     wd = scratch_dir()
-    run.check_proofs(deps=['theories/Model/Control.vo', 'theories/Proofs/ControlProofs.vo', 'theories/Model/Lowering.vo', 'theories/Proofs/LoweringProofs.vo', 'theories/Model/ExprFlat.vo', 'theories/Proofs/ExprFlatProofs.vo'])
+    run.check_proofs(deps=['theories/Model/Control.vo', 'theories/Proofs/ControlProofs.vo', 'theories/Model/Lowering.vo', 'theories/Proofs/LoweringProofs.vo', 'theories/Model/ExprFlat.vo', 'theories/Proofs/ExprFlatProofs.vo'], extra=['sw'])
     rc, o, e = sh([os.path.join(VERIF, 'ocaml/build.sh')], timeout=900)
     if rc != 0:
         run.corr_broken.append('extracted model does not build: ' + (o + e)[-300:])
@@ -449,9 +454,15 @@ def main():
                                how='E(k) prints k and returns the next listed outcome; M(k) prints k'), dict(area='trace', construct='lowering'))
         elif len(samples) < 3: samples.append(dict(statement=ctext[:200], jump_code=mcode[:200], trace=mtrace[:80]))
 
+    # ---------------- tie of package sw: cases evaluated by the Coq spec and model (one coqc call) and by the real compiler ----------------
+    if not os.environ.get('VERIF_SKIP_PROOFS'):
+        te, tn, td, ts = run_tie(run, 'sw', src, 240 if run.quick() else 2400, 'trace')
+        evals += te; nontriv += tn; dist['tie_sw'] = td; samples += ts
+    TIE_RULE = ' ' + "(e) package sw: %d random statement trees with switch / case / default / goto / labels / computed goto: trace of the compiled program = Coq structured semantics = Coq continuation semantics = Coq jump machine on the modelled code; -S jump skeleton = modelled code (positions and chibicc's label names); invalid placements rejected iff the model rejects" % (240 if run.quick() else 2400)
     cov = dict(evaluations=evals, distinct_nontrivial=nontriv, input_distribution=dist, samples=samples,
                rule='(a) %d switch statements over 10 controlling types with 1-7 disjoint cases (values at every width boundary, negative, beyond 32 bits, ranges up to 2^33 wide), default at any position, probed at every case boundary +-1: case entered = extracted dispatch model = C11 selection computed independently; (b) %d generated programs of 1-3 functions nesting if/else, for/while/do with break/continue, switch with fall-through and default anywhere (also inside loops), forward and backward goto, computed goto, && || ?: comma and statement expressions with side-effecting operands, run three times over persistent counters: marker trace = gcc; (c) %d shadowing programs (int objects, static objects, typedef names, enumerators, struct/union tags, for-init and parameter scope, labels) nested to depth 3: printed bindings = generator = gcc; (d) %d statements nesting if/else, for (with and without condition, init, increment), while, do, break, continue to depth 5: the jump code in chibicc -S (calls, je/jne/jmp, labels resolved to positions) = extracted lgen, and the run on 300 fixed condition outcomes = extracted lexec' % (NA * 10, NB, NCs, ND),
                traces_validated_against_impl=nontriv)
+    cov['rule'] = cov.get('rule', '') + TIE_RULE
     return run.finish(cov,
         ['gcc 12 -O0 is the reference for execution traces and bindings; generated programs have no unspecified evaluation order between markers',
          'a switch on a type narrower than int is compared after promotion to int (C11 6.8.4.2p5)'],
